@@ -542,7 +542,7 @@ func buildTargets() []*target {
 		capEnc = append(capEnc, e.b())
 	}
 	// maps a Go map cannot express: a key stated twice (same value, other value) for
-	// every kind of value a capability can carry (seed C07-17 compared the two decoded
+	// every kind of value a capability can carry (seed C07-16 compared the two decoded
 	// values with !=, which panics for list and raw values)
 	capVals := [][2]value.Value{
 		{value.Bool(true), value.Bool(false)},
